@@ -1,6 +1,7 @@
 package main
 
 import (
+	"go/constant"
 	"fmt"
 	"go/token"
 	"sort"
@@ -557,10 +558,75 @@ func init() {
 		rulePrimaryMark(r)
 		ruleGCFlushFirst(r)
 		ruleFreeListLocks(r)
-		r.support([]string{"reloc-binding", "keycheck", "samevalue-guard", "immutable-noeffect", "deleted-check", "layout", "atomic-rmw", "commit-order", "flush-callers", "upgrade-order", "retain", "append-flags", "reloc-keys", "close-mustcall", "cancel-not-completion", "data-file-writers", "bounds-from-same-file", "mark-file-matches", "entry-applied"})
+		ruleHandoverOwners(r)
+		r.support([]string{"config-wiring", "reloc-binding", "keycheck", "samevalue-guard", "immutable-noeffect", "deleted-check", "layout", "atomic-rmw", "commit-order", "flush-callers", "upgrade-order", "retain", "append-flags", "reloc-keys", "close-mustcall", "cancel-not-completion", "data-file-writers", "bounds-from-same-file", "mark-file-matches", "entry-applied", "errors-not-dropped"})
 	},
 		"Decides structural necessary conditions of 'every superseded location freed exactly once', not the behaviour: every FreeList.Put call site in the module matches an accepted evidence form (old location from index.Get freed only after a successful index Update/Remove behind the full-key match; relocation frees the old location after the re-point and the new copy only when the re-point failed), so nothing is freed for a new key, a rejected Put or an absent key; the hand-over to GC never overwrites an unprocessed batch, runs in one exclusive flushLock section after a pool flush; the hand-over file is removed only after EOF and every record read is applied; records are marked only via the freelist, only when not already deleted and (GC) only when the size matches; the primary is flushed before the hand-over; freelist fields are lock-protected. Not covered: duplicates from two concurrent writers of one key, crash points, hand-over timing.",
 		"fault-dependent paths (I/O errors) are outside the statement; applyFreeList's behaviour on a read error is recorded as an observation")
+}
+
+// R-HANDOVER-OWNERS: the ".gc" hand-over file holds locations that were taken
+// out of the freelist but not yet applied to the primary. Only its consumers
+// (processFreeList, the upgrade's applyFreeList) may remove it, and only ToGC
+// may create it (by renaming the freelist); anything else that unlinks,
+// truncates or overwrites it — a "clean up stale work files" step in Open, say —
+// loses a batch that an interrupted cycle left behind.
+func ruleHandoverOwners(r *Report) {
+	const rule = "handover-owners"
+	isGCPath := func(v ssa.Value) bool {
+		return derives(v, flowOpts{Arith: true}, func(x ssa.Value) bool {
+			if c, ok := x.(*ssa.Const); ok && c.Value != nil && c.Value.Kind() == constant.String {
+				return strings.HasSuffix(constant.StringVal(c.Value), ".gc")
+			}
+			if c, ok := x.(*ssa.Call); ok {
+				return cname(c) == "(*freelist.FreeList).ToGC"
+			}
+			if ex, ok := x.(*ssa.Extract); ok {
+				if c, ok := ex.Tuple.(*ssa.Call); ok {
+					return cname(c) == "(*freelist.FreeList).ToGC" && ex.Index == 0
+				}
+			}
+			return false
+		})
+	}
+	allowed := map[string]bool{"mhprimary.processFreeList": true, "mhprimary.applyFreeList": true, "(*freelist.FreeList).ToGC": true}
+	n := 0
+	for _, fn := range moduleFuncs(r.E) {
+		for _, c := range allCalls(fn) {
+			name := cname(c)
+			a := c.Common().Args
+			var path ssa.Value
+			switch name {
+			case "os.Remove", "os.RemoveAll", "os.Truncate", "os.Create", "os.WriteFile":
+				path = a[0]
+			case "os.Rename":
+				path = a[1]
+			case "os.OpenFile":
+				if k, ok := intConst(a[1]); ok && k&osOTrunc != 0 {
+					path = a[0]
+				}
+			}
+			inToGC := false
+			for f := fn; f != nil; f = f.Parent() {
+				if shortFunc(f) == "(*freelist.FreeList).ToGC" {
+					inToGC = true
+				}
+			}
+			if path == nil || (!isGCPath(path) && !(inToGC && name == "os.Rename")) {
+				continue
+			}
+			n++
+			r.fn(fn)
+			root := fn
+			for root.Parent() != nil {
+				root = root.Parent()
+			}
+			ok := allowed[shortFunc(root)] || onlyCalledFrom(root, func(f *ssa.Function) bool { return allowed[shortFunc(f)] })
+			r.Check(ok, rule, shortFunc(root)+"/"+name, c.Pos(), "the hand-over file is created by ToGC and removed by its consumer",
+				"the freelist hand-over file (.gc) is removed, truncated or overwritten outside ToGC and its consumers: a batch left behind by an interrupted GC cycle (Close or crash inside processFreeList) is lost, so the locations in it are never marked deleted and their space is never reclaimed")
+		}
+	}
+	r.Min(rule, 3)
 }
 
 // ruleFreeListLocks: A1 restricted to the freelist's fields.
